@@ -248,7 +248,13 @@ func oneSequential(r *vkit.R, i int, g *vkit.Rand, script []sop) {
 			}
 			r.Count("seq_quiescence_checks", 1)
 			got := 0
-			for k := 0; k < int(cur.Max)+1; k++ {
+			want := int(cur.Max)
+			probeN := want + 1
+			if want > 64 {
+				// a huge limit: 64 sequential requests must all be admitted (the refusal at M+1 is not probed)
+				want, probeN = 64, 64
+			}
+			for k := 0; k < probeN; k++ {
 				if acquire() {
 					got++
 				} else {
@@ -256,7 +262,7 @@ func oneSequential(r *vkit.R, i int, g *vkit.Rand, script []sop) {
 				}
 			}
 			w := map[string]interface{}{"ops": append([]string(nil), ops...), "via": h.via, "limit": cur.Max, "admitted": got}
-			if got < int(cur.Max) {
+			if got < want {
 				r.Violation("C05/limiter-seq/quiescence/slots-leaked/"+classify(),
 					fmt.Sprintf("after every request had finished only %d of %d new requests were admitted (slot not given back)", got, cur.Max), w)
 			}
@@ -295,13 +301,23 @@ func oneSequential(r *vkit.R, i int, g *vkit.Rand, script []sop) {
 					nc, label = so.to, so.lbl
 				}
 				if label == "noop" {
-					// something else in the spec changes (or nothing at all)
-					switch g.Intn(3) {
+					// something else in the spec changes (or nothing at all), or the limiter type flips
+					switch g.Intn(4) {
 					case 0:
 						fillerMax++
 					case 1:
 						order++
+					case 2:
+						if h.flip != nil {
+							h.flip()
+							r.Count("seq_limiter_mode_flips", 1)
+						}
 					}
+				}
+				if script == nil && nc.Kind == kMIF && label != "noop" && label != "noop-field" && g.Chance(0.08) {
+					// boundary limits: nothing / (practically) everything is admitted
+					nc.Max = g.PickI32([]int32{0, 2147483647})
+					r.Count("seq_boundary_limits(0_or_maxint32)", 1)
 				}
 				cur = nc
 				h.sync(spec(cur, 2, fillerMax, order))
